@@ -57,7 +57,8 @@ type c16Print struct {
 type c16Scenario struct {
 	Drv    []c16DrvSpec `json:"drv"`
 	Prints []c16Print   `json:"prints"`
-	Unit   int          `json:"unit"` // byte length of one model length unit
+	Unit   int          `json:"unit"`  // byte length of one model length unit
+	Align  bool         `json:"align"` // start from an early ring whose indices are zero
 }
 
 type c16Run struct {
@@ -108,9 +109,9 @@ type c16Base struct {
 	msg  string
 }
 
-func (d *c16Base) verifID() int                             { return d.id }
-func (d *c16Base) DriverName() string                       { return d.name }
-func (d *c16Base) DriverVersion() (uint16, uint16, uint16)  { return 1, 2, 3 }
+func (d *c16Base) verifID() int                            { return d.id }
+func (d *c16Base) DriverName() string                      { return d.name }
+func (d *c16Base) DriverVersion() (uint16, uint16, uint16) { return 1, 2, 3 }
 func (d *c16Base) DriverInit(w io.Writer) *kernel.Error {
 	from, b := d.run.inject(d.spec.Say)
 	d.run.emit(c16Ev{"k": "init", "id": d.id, "from": from, "len": d.spec.Say, "ok": d.spec.InitOk})
@@ -142,12 +143,12 @@ func (c *c16Cons) Dimensions(dim console.Dimension) (uint32, uint32) {
 	}
 	return 640, 400
 }
-func (c *c16Cons) DefaultColors() (uint8, uint8)                      { return 7, 0 }
-func (c *c16Cons) Fill(x, y, w, h uint32, fg, bg uint8)               { c.fills++ }
-func (c *c16Cons) Scroll(console.ScrollDir, uint32)                   { c.scrolls++ }
-func (c *c16Cons) Write(ch byte, fg, bg uint8, x, y uint32)           { c.writes++ }
-func (c *c16Cons) Palette() color.Palette                             { return nil }
-func (c *c16Cons) SetPaletteColor(uint8, color.RGBA)                  {}
+func (c *c16Cons) DefaultColors() (uint8, uint8)            { return 7, 0 }
+func (c *c16Cons) Fill(x, y, w, h uint32, fg, bg uint8)     { c.fills++ }
+func (c *c16Cons) Scroll(console.ScrollDir, uint32)         { c.scrolls++ }
+func (c *c16Cons) Write(ch byte, fg, bg uint8, x, y uint32) { c.writes++ }
+func (c *c16Cons) Palette() color.Palette                   { return nil }
+func (c *c16Cons) SetPaletteColor(uint8, color.RGBA)        {}
 
 type c16TTY struct {
 	c16Base
@@ -201,7 +202,8 @@ func c16ID(x interface{}) int {
 	return -1
 }
 
-func c16Scenario1(t *testing.T, enc *json.Encoder, sc *c16Scenario, tag interface{}) {
+// c16Scenario1 runs one scenario; it returns the write index of the early ring at the end of DetectHardware.
+func c16Scenario1(t *testing.T, enc *json.Encoder, sc *c16Scenario, tag interface{}) (wEnd int) {
 	r := &c16Run{enc: enc, t: t, sc: sc}
 	if sc.Unit <= 0 {
 		sc.Unit = 1
@@ -209,8 +211,12 @@ func c16Scenario1(t *testing.T, enc *json.Encoder, sc *c16Scenario, tag interfac
 	// fresh world: registry, HAL state, log sink, early ring
 	device.VerifC16ResetDrivers()
 	devices = managedDevices{}
-	kfmt.SetOutputSink(nil)
-	io.Copy(io.Discard, kfmt.GetOutputSink().(io.Reader))
+	if sc.Align {
+		kfmt.VerifC16ResetEarly()
+	} else {
+		kfmt.SetOutputSink(nil)
+		io.Copy(io.Discard, kfmt.GetOutputSink().(io.Reader))
+	}
 
 	var ttys []*c16TTY
 	drvEv := []c16Ev{}
@@ -268,6 +274,7 @@ func c16Scenario1(t *testing.T, enc *json.Encoder, sc *c16Scenario, tag interfac
 				r.print(p.Len * sc.Unit)
 			}
 		}
+		wEnd = kfmt.VerifC16EarlyWIndex()
 		// one last chunk in every scenario: whatever is the log sink now must still receive output
 		r.print(3)
 	}()
@@ -319,6 +326,7 @@ func c16Scenario1(t *testing.T, enc *json.Encoder, sc *c16Scenario, tag interfac
 	end["ring"] = c16Ints(rest.b)
 	r.emit(end)
 	r.emit(c16Ev{"k": "reset"})
+	return wEnd
 }
 
 type c16Sink struct{ b []byte }
@@ -384,7 +392,7 @@ func TestVerifC16HalRandom(t *testing.T) {
 	kinds := []string{"tty", "cons", "other"}
 	fixed := []int{-128, -127, 0, 127}
 	for i := 0; i < n; i++ {
-		s := c16Scenario{Drv: []c16DrvSpec{}, Prints: []c16Print{}, Unit: 1}
+		s := c16Scenario{Drv: []c16DrvSpec{}, Prints: []c16Print{}, Unit: 1, Align: rng.Intn(2) == 0}
 		nd := rng.Intn(9)
 		pairs := rng.Intn(3) == 0 // several terminals and consoles, in every order relative to each other and to failing drivers
 		if pairs {
@@ -431,5 +439,73 @@ func TestVerifC16HalRandom(t *testing.T) {
 		}
 		enc.Encode(c16Ev{"k": "scenario", "sc": s})
 		c16Scenario1(t, enc, &s, i)
+	}
+
+	// Early-log volumes EXACTLY at k*size and k*size +- 1 at the moment the terminal takes over, for several
+	// chunkings and both arrival orders.  The HAL's own messages count too and their length is not ours to
+	// know: a first run 64 bytes short tells (from where the ring's write index ends up) how many bytes the
+	// HAL adds, the following runs use that to land on the boundary.  Inputs only; the monitor judges as usual.
+	maxK, _ := strconv.Atoi(os.Getenv("C16_SWEEP_K"))
+	if maxK == 0 {
+		maxK = 2
+	}
+	size := kfmt.VerifC16RingSize()
+	tag := n
+	for k := 1; k <= maxK; k++ {
+		for cfg := 0; cfg < 4; cfg++ {
+			for chunking := 0; chunking < 3; chunking++ {
+				mk := func(total int) c16Scenario {
+					s := c16Scenario{Drv: []c16DrvSpec{}, Prints: []c16Print{}, Unit: 1, Align: true}
+					tt := c16DrvSpec{Order: -128, Kind: "tty", ProbeOk: true, InitOk: true}
+					cc := c16DrvSpec{Order: 0, Kind: "cons", ProbeOk: true, InitOk: true}
+					if cfg&2 != 0 {
+						tt.Say, cc.Say = 5, 9
+					}
+					if cfg&1 == 0 {
+						s.Drv = append(s.Drv, tt, cc)
+					} else {
+						cc.Order, tt.Order = -128, 0
+						s.Drv = append(s.Drv, cc, tt)
+					}
+					var parts []int
+					switch chunking {
+					case 0:
+						parts = []int{total}
+					case 1:
+						for rest := total; rest > 0; rest -= 512 {
+							if rest < 512 {
+								parts = append(parts, rest)
+							} else {
+								parts = append(parts, 512)
+							}
+						}
+					default:
+						parts = []int{1, total - 2, 1}
+					}
+					for i, p := range parts {
+						at := 0
+						if chunking == 1 && i%3 == 2 {
+							at = 1 + i%2 // some chunks between the driver steps
+						}
+						if p > 0 {
+							s.Prints = append(s.Prints, c16Print{At: at, Len: p})
+						}
+					}
+					return s
+				}
+				probe := mk(k*size - 64)
+				enc.Encode(c16Ev{"k": "scenario", "sc": probe})
+				w := c16Scenario1(t, enc, &probe, tag)
+				tag++
+				// the write index is where the early log ended: (k*size - 64 + halBytes) mod size
+				short := (size - w%size) % size // bytes still missing to the next multiple of size
+				for _, d := range []int{0, -1, 1} {
+					s := mk(k*size - 64 + short + d)
+					enc.Encode(c16Ev{"k": "scenario", "sc": s})
+					c16Scenario1(t, enc, &s, tag)
+					tag++
+				}
+			}
+		}
 	}
 }
